@@ -27,6 +27,9 @@ case      {"loop": select|asyncio|tornado|twisted|trio|zmq, "screen": raw|legacy
           optional "handlers": "args" (default; MainLoop(input_filter=f, unhandled_input=g)) | "methods" (a
           MainLoop subclass overriding the public input_filter / unhandled_input methods - the other spelling
           the manual and the docstrings offer)
+          optional "tty": "high" (default; the terminal is reached through two descriptors of the application's
+          own, > 2) | "std" (the terminal is the process's standard input and output, descriptors 0 and 1 - what
+          raw.Screen() uses when it is given no files, and the falsy-but-valid value of a descriptor)
           optional "history": [{"script": [...], "inject": null | [i, kind, callback kind]}, ...]  earlier
           sessions, each one a run() of its own on the SAME MainLoop / event loop / screen / widgets, in order,
           before the session of the case (its "script" / "inject"); scripts without bursts, not on twisted (its
@@ -34,7 +37,7 @@ case      {"loop": select|asyncio|tornado|twisted|trio|zmq, "screen": raw|legacy
           widget, terminal size and the terminal itself carry over from run to run.
 
 run       One forked child per case.  The child opens a pty pair, gives the slave side (two descriptors of their
-          own, like stdin / stdout) to a real ``urwid.display.raw.Screen`` (subclassed only to report
+          own, or - "tty": "std" - dup2()'ed onto the child's descriptors 0 and 1, its stdin / stdout) to a real ``urwid.display.raw.Screen`` (subclassed only to report
           "draw_screen() returned"), builds the loop, a probe widget and a MainLoop, and calls ``run()``.  Every
           user callback (input filter, widget keypress / mouse_event / render, unhandled-input handler, alarm,
           watch_file, watch_pipe) appends to one log and bumps one invocation counter; the injection
@@ -100,7 +103,8 @@ PROPERTY = "C12"
 LEVEL = "fault_enumeration"
 RULE = (
     "Enumeration. A unit = (session script, event loop, screen kind, pop_ups, bracketed-paste/focus flags, "
-    "custom|default prior signal handlers). Sessions: hand-written ones covering every event kind (key batches, "
+    "custom|default prior signal handlers, terminal on descriptors 0 / 1 (the process's stdin / stdout, the "
+    "Screen's default) | on two descriptors of the application's own). Sessions: hand-written ones covering every event kind (key batches, "
     "SGR mouse reports: press / release / drag, buttons 1-5, plain or with shift / meta / ctrl held, resize via "
     "TIOCSWINSZ+SIGWINCH, alarm, watch_pipe write, watch_file write, the "
     "REDRAW_SCREEN key, filter drop/map, handled and unhandled keys, a PopUpLauncher pop-up opened and closed by keys "
@@ -123,7 +127,9 @@ RULE = (
     "a later callback of another (kind, exception) pair (every pair once in either place; not on twisted). "
     "Units: every session x {select, asyncio, tornado, twisted, trio, zmq} on the raw screen + "
     "the default loop on a screen without hook_event_loop (MainLoop._run_screen_event_loop), pop_ups and the "
-    "other flags alternating (quick) or crossed (thorough). For every unit that is not a sweep the session is first run without "
+    "other flags alternating (quick) or crossed (thorough); the terminal's descriptors alternate over the loops "
+    "of a session and from session to session (quick) and both are run for every session x loop (thorough). "
+    "For every unit that is not a sweep the session is first run without "
     "injection to learn the N user-callback invocations of its last run(); then one run per (i < N) x {ExitMainLoop, "
     "Boom(Exception), SystemExit (quick: every other i)} with the exception raised by invocation i. Each run is "
     "a forked child on a fresh pty pair. Non-trivial: the injection hits an invocation other than the first on "
@@ -137,6 +143,10 @@ ASSUMPTIONS = [
     "get_available_raw_input() returned; the "
     "'screen without external event loop support' is a forwarding proxy that hides hook_event_loop / "
     "unhook_event_loop",
+    "the terminal may be the process's standard input / output (descriptors 0 and 1, what raw.Screen() takes "
+    "when it is given no files) or any other pair of descriptors open on the tty: the statement's 'original tty "
+    "settings' and every other clause hold for either; in the child 0 and 1 are the pty slave (dup2) and the "
+    "Screen is given text files on exactly these two descriptors",
     "an input event cut in pieces is still that one event: the continuation is written to the terminal while the "
     "screen is still inside the read that returned the beginning, and Screen.set_input_timeouts(complete_wait=8 s) "
     "keeps the documented wait for the rest of a sequence from expiring on a busy machine (the 0.125 s default is "
@@ -432,7 +442,7 @@ def malformed(case):
             return True  # input that is still on its way when a run ends: the statement is silent about it
     if case.get("history") and case["loop"] == "twisted":
         return True  # ReactorNotRestartable: Twisted's own rule
-    if case.get("handlers", "args") not in ("args", "methods"):
+    if case.get("handlers", "args") not in ("args", "methods") or case.get("tty", "high") not in ("high", "std"):
         return True
     if tree and (tree.get("kind") != "popup" or not case["pop_ups"]):
         return True
@@ -735,9 +745,19 @@ def _child_body(case, stall, emit):
     cols, rows = case["size"]
     fcntl.ioctl(master, termios.TIOCSWINSZ, struct.pack("HHHH", rows, cols, 0, 0))
     os.set_blocking(master, False)
-    # like stdin / stdout of a real application: two descriptors of their own on the same terminal
-    fin = os.fdopen(os.dup(slave), "r", encoding="utf-8")
-    fout = os.fdopen(os.dup(slave), "w", encoding="utf-8")
+    if case.get("tty", "high") == "std":
+        # the terminal is the process's standard input / output, descriptors 0 and 1 - what raw.Screen() uses by
+        # default (input=sys.stdin, output=sys.stdout) and what nearly every application runs on
+        os.dup2(slave, 0)
+        os.dup2(slave, 1)
+        fin = os.fdopen(0, "r", encoding="utf-8", closefd=False)
+        fout = os.fdopen(1, "w", encoding="utf-8", closefd=False)
+        assert fin.fileno() == 0 and fout.fileno() == 1
+    else:
+        # like stdin / stdout of a real application: two descriptors of their own on the same terminal
+        fin = os.fdopen(os.dup(slave), "r", encoding="utf-8")
+        fout = os.fdopen(os.dup(slave), "w", encoding="utf-8")
+        assert fin.fileno() > 2 and fout.fileno() > 2
 
     h = _Harness(case, master, stall, emit)
 
@@ -1589,14 +1609,14 @@ def units(ctx):
         configs = [(lp, "raw") for lp in LOOPS] + [("select", "legacy")]
         if s.get("history") and s.get("faults") is False:
             configs.remove(("twisted", "raw"))  # nothing but the history to look at: see below
-        for lp, scr in configs:
+        for ci, (lp, scr) in enumerate(configs):
             if ctx.tier == "quick":
                 variants = [((si + k) % 2 == 1, (si + k) % 3 != 0)]
             else:
                 variants = [(False, True), (True, True)] if (si + k) % 2 else [(True, False), (False, True)]
             if s.get("tree"):
                 variants = sorted({(True, flags) for _pop, flags in variants})  # a pop-up needs the PopUpTarget
-            for pop, flags in variants:
+            for vi, (pop, flags) in enumerate(variants):
                 k += 1
                 u = {
                     "loop": lp, "screen": scr, "pop_ups": bool(pop), "bp": bool(flags), "focus": bool(flags),
@@ -1606,6 +1626,10 @@ def units(ctx):
                     "inject": None,
                     # the two handlers as constructor arguments / as overridden MainLoop methods
                     "handlers": "methods" if (si + k) % 4 in (1, 2) else "args",
+                    # which descriptors the terminal is: 0 / 1 (standard input / output, the Screen's default) or a
+                    # pair of the application's own; alternates over the loops of a session, from session to
+                    # session, and over the variants of a unit (thorough: both for every session x loop)
+                    "tty": "std" if (si + ci + vi) % 2 == 0 else "high",
                 }
                 for opt in ("tree", "swap"):
                     if s.get(opt):
@@ -1663,7 +1687,7 @@ def _shrink(case, v, seconds):
             break
     if best.get("history") == []:
         best = {k: v_ for k, v_ in best.items() if k != "history"}
-    for key, plain in (("pop_ups", False), ("bp", False), ("focus", False), ("sigs", "default"),
+    for key, plain in (("pop_ups", False), ("bp", False), ("focus", False), ("sigs", "default"), ("tty", "high"),
                        ("filter", {"drop": [], "map": []}), ("handled", [])):
         attempt(dict(best, **{key: plain}))
     progress = True
